@@ -35,6 +35,7 @@ from beartype._util.cls.utilclstest import is_type_subclass
 from beartype._util.error.utilerrwarn import issue_warning
 from beartype._util.kind.maplike.utilmapfrozen import FrozenDict
 from beartype._util.text.utiltextidentifier import is_identifier
+from beartype._util.utilobjtest import is_object_hashable
 from collections.abc import (
     Collection as CollectionABC,
 )
@@ -195,6 +196,9 @@ def die_if_conf_kwargs_invalid(conf_kwargs: DictStrToAny) -> None:
     elif not (
         # A collection *AND*...
         isinstance(conf_kwargs['claw_skip_package_names'], CollectionABC) and
+        # This collection is hashable (e.g., a tuple or frozen set rather than
+        # a list or set), as configurations are themselves hashable *AND*...
+        is_object_hashable(conf_kwargs['claw_skip_package_names']) and
         all(
             (
                 # This item is a string *AND*...
@@ -209,7 +213,8 @@ def die_if_conf_kwargs_invalid(conf_kwargs: DictStrToAny) -> None:
         raise BeartypeConfParamException(
             f'Beartype configuration parameter "claw_skip_package_names" '
             f'value {repr(conf_kwargs["claw_skip_package_names"])} not '
-            f'collection of "."-delimited Python identifiers.'
+            f'hashable collection (e.g., tuple, frozen set) of '
+            f'"."-delimited Python identifiers.'
         )
     # Else, "claw_skip_package_names" is an iterable of non-empty strings.
     #
